@@ -182,6 +182,27 @@ chk(
     "per-builtin provenance patterns + dominance + who-may-call (stable sort) + return-tag analysis",
 )
 
+chk(
+    "C08",
+    "Partial: numeral/text fidelity is serde_json's and is not decided. Decided as tables from MIR provenance: the "
+    "Deserialize visitor (11 rows incl. exact cast-free integer entry, arrival-order arrays, last-duplicate-wins maps), "
+    "Serialize for Variable (7 arms), TryFrom<Value> / TryFrom<&Value> (2 x 6 rows + convert_map), absence of lossy numeric "
+    "casts in all bridge bodies, the identity query / search input path, Display = serde_json::to_string, and the manifest "
+    "(no arbitrary_precision, serde rc).",
+    "Trusted: serde_json's parser and printer (integer exactness, documented float accuracy, escapes).",
+    "table extraction by provenance patterns + cast inventory + manifest reader",
+)
+chk(
+    "C14",
+    "Partial: decided as finite tables from MIR provenance — every method of variable::Serializer (28 rows) and of its compound "
+    "states (15 rows) builds serde_json's value::Serializer image; the Variable deserializer's case table (deserialize_any per "
+    "kind, option, enum, newtype_struct, the four VariantAccess methods, element/entry access) matches serde_json's Value "
+    "deserializer incl. errors on kind mismatch; sequence completeness (Ok only after the exhaustion test); search input goes "
+    "through this bridge. Not decided: that serde_json itself encodes each Rust shape as tabulated (trusted reference).",
+    "Trusted: serde_json's documented Value (de)serializer behaviour; excluded shapes (non-string keys, 128-bit integers).",
+    "table extraction by provenance patterns + dominance (completeness test) over rustc_private facts",
+)
+
 for pid in [f"C{n:02d}" for n in range(1, 19)]:
     if pid not in CHECKS and pid not in NOT_APPLICABLE:
         na(pid, "check not implemented yet in this revision of /verif (work in progress; see DESIGN.md §3)")
